@@ -165,8 +165,12 @@ def _run_case(ds, split, order, no_color: bool, dup: bool) -> None:
         comps.setdefault(first, {})[sorted(explicit)[0]] = "MAGENTA/YELLOW:blink"
         if first not in order:
             order = first + order
+    explicit_conf = dict(explicit)
+    if dup:
+        # the default text color is made visible: an id that is still unresolved must stay uncolored, not fall back to it
+        explicit_conf["TEXT"] = "CYAN:bold"
     try:
-        conf = C.ColorsConfig(_nest(explicit), no_color=no_color)
+        conf = C.ColorsConfig(_nest(explicit_conf), no_color=no_color)
     except Exception as e:  # noqa
         raise Violation(f"config-raises :: {what}: ColorsConfig(...) raises {type(e).__name__}: {e}")
     pal_cls = C._PaletteMeta("VPalette", (C.Palette,), {"c0": C.ConfColor(IDS[0]), "c1": C.ConfColor(IDS[1]), "c2": C.ConfColor(IDS[2])})
